@@ -3,12 +3,20 @@
 //
 // Per case (one byte string):
 //
-//	run uefi.Parse on a private copy under ReadOnly=false and ReadOnly=true (fresh process state each);
+//	run uefi.Parse on a private copy under ReadOnly=false and ReadOnly=true (fresh process state each); what each
+//	tree holds is recorded the moment Parse returns (a private copy of every node's buffer, the canonical dumps,
+//	the JSON rendering) and everything below judges that record; then a fixed unrelated image is parsed in both
+//	modes (disturb.go) before the trees are looked at again;
 //	O  caller-buffer-untouched      the copy handed to Parse is bit-identical afterwards (both modes)
 //	O  mode-independent-outcome     ok / err is the same in both modes
 //	O  mode-independent-tree        the canonical tree dump is the same in both modes
 //	O  mode-independent-json        the visitors.JSON rendering is the same in both modes
 //	O  mode-independent-nvar-me     the extended dump (NVAR stores, ME partition tables; xdump.go) is the same in both modes
+//	O  tree-unchanged-by-later-parse the tree the caller holds is still the tree Parse returned after the parse in the
+//	                                other mode and the parse of the disturber image (a node "holds exactly the input
+//	                                bytes at its offset and size" for as long as the caller holds the tree)
+//	O  decoded-content-is-what-was-encoded  (cases that carry the argument "decoded": multi.go) the decoded content
+//	                                shown by the tree is the multiset of streams the generator compressed
 //	O  <the twelve oracles of faithful.go / nvwalk.go> on the tree of each mode
 //	O  walker-covers-tree           the walker saw exactly the nodes a uefi.Visitor reaches
 //	M  parse                        the Lean model (drv_c04) answers the same "ok <digest> <nodes> <x digest>" | "err"
@@ -57,6 +65,20 @@ type parsed struct {
 	tree    fuefi.Firmware
 	touched bool // the buffer handed to Parse was modified
 	pol     byte // uefi.Attributes.ErasePolarity when Parse returned
+	// what the tree held at the moment Parse returned (before any other Parse or decoder call):
+	snap map[fuefi.Firmware][]byte // a private copy of every node's buffer
+	dig  string                    // hu.Digest
+	xdig string                    // xDigest
+	json string                    // jsonOf (not under DisableDecompression)
+}
+
+// snapshot copies the buffer of every node a uefi.Visitor reaches.
+type snapshot struct{ m map[fuefi.Firmware][]byte }
+
+func (s *snapshot) Run(f fuefi.Firmware) error { return f.Apply(s) }
+func (s *snapshot) Visit(f fuefi.Firmware) error {
+	s.m[f] = append([]byte(nil), f.Buf()...)
+	return f.ApplyChildren(s)
 }
 
 // parseOnce runs uefi.Parse on a private copy of `in` in a fresh process state.
@@ -93,6 +115,19 @@ func parseOnce(in []byte, readOnly, noDecompress bool) parsed {
 		p.tree = nil
 	}
 	hu.ResetState()
+	if p.tree != nil {
+		// The property is about the tree Parse returned: record it now.  Everything the oracles compare
+		// (buffers, canonical dumps, JSON) is taken from this record, so neither the next Parse nor the
+		// decoder calls of the walker can repair or damage what is judged.
+		sn := &snapshot{m: map[fuefi.Firmware][]byte{}}
+		sn.Run(p.tree)
+		p.snap = sn.m
+		p.dig = hu.Digest(p.tree)
+		p.xdig = xDigest(p.tree)
+		if !noDecompress {
+			p.json = jsonOf(p.tree)
+		}
+	}
 	return p
 }
 
@@ -166,13 +201,20 @@ func expOf(p parsed, w *walker) string {
 	if p.class != "ok" {
 		return p.class
 	}
-	return fmt.Sprintf("ok %s %d %s", hu.Digest(p.tree), w.nodes, xDigest(p.tree))
+	return fmt.Sprintf("ok %s %d %s", p.dig, w.nodes, p.xdig)
 }
 
-func runBytes(kind string, in []byte) core.Outcome {
+func runBytes(kind string, in []byte) core.Outcome { return runBytesX(kind, in, "") }
+
+// runBytesX: `decoded` (optional, from the generator) is the sorted list of fnv:len keys of the streams that
+// were encoded into the compressed sections of the image.
+func runBytesX(kind string, in []byte, decoded string) core.Outcome {
 	out := core.Outcome{}
 	cp := parseOnce(in, false, false) // copy mode
 	ro := parseOnce(in, true, false)  // read-only (aliasing) mode
+	if cp.class == "ok" || ro.class == "ok" {
+		disturb(hasCodecGUID(in)) // unrelated images are parsed in both modes (disturb.go)
+	}
 	for _, p := range []parsed{cp, ro} {
 		if p.class == "panic" || p.class == "fatal" || p.class == "hang" {
 			// C05's business: counted, not judged here
@@ -193,11 +235,23 @@ func runBytes(kind string, in []byte) core.Outcome {
 
 	var wcp *walker
 	if cp.class == "ok" && ro.class == "ok" {
-		add("mode-independent-tree", hu.Digest(cp.tree), hu.Digest(ro.tree))
-		add("mode-independent-json", jsonOf(cp.tree), jsonOf(ro.tree))
-		add("mode-independent-nvar-me", xDigest(cp.tree), xDigest(ro.tree))
-		wcp = checkFaithful(cp.tree, in, false, cp.pol)
-		wro := checkFaithful(ro.tree, in, false, ro.pol)
+		add("mode-independent-tree", cp.dig, ro.dig)
+		add("mode-independent-json", cp.json, ro.json)
+		add("mode-independent-nvar-me", cp.xdig, ro.xdig)
+		// the trees the caller still holds are the trees Parse returned: nothing that ran since (the parse
+		// in the other mode, the parse of the disturber image) changed a node
+		add("tree-unchanged-by-later-parse",
+			"copy "+cp.dig+" "+cp.xdig+" / read-only "+ro.dig+" "+ro.xdig,
+			"copy "+hu.Digest(cp.tree)+" "+xDigest(cp.tree)+" / read-only "+hu.Digest(ro.tree)+" "+xDigest(ro.tree))
+		if decoded != "" {
+			// the generator knows what it compressed: the decoded content in the tree is those streams (the
+			// walker below re-runs the implementation's decoders, so it cannot tell a decoder that answers
+			// with another stream's content)
+			add("decoded-content-is-what-was-encoded", "copy "+decoded+" / read-only "+decoded,
+				"copy "+decodedStreams(cp.tree, cp.snap)+" / read-only "+decodedStreams(ro.tree, ro.snap))
+		}
+		wcp = checkFaithfulAt(cp, in, false)
+		wro := checkFaithfulAt(ro, in, false)
 		for _, name := range oracleNames {
 			got := "ok"
 			if s, bad := wcp.bad[name]; bad {
@@ -211,7 +265,7 @@ func runBytes(kind string, in []byte) core.Outcome {
 		c.Run(cp.tree)
 		add("walker-covers-tree", fmt.Sprint(c.n), fmt.Sprint(wcp.nodes))
 	} else if cp.class == "ok" {
-		wcp = checkFaithful(cp.tree, in, false, cp.pol)
+		wcp = checkFaithfulAt(cp, in, false)
 	}
 
 	// model correspondence
@@ -222,7 +276,7 @@ func runBytes(kind string, in []byte) core.Outcome {
 		if codecIn {
 			nd = parseOnce(in, false, true)
 			if nd.class == "ok" {
-				wnd = checkFaithful(nd.tree, in, true, nd.pol)
+				wnd = checkFaithfulAt(nd, in, true)
 				for _, name := range oracleNames {
 					if s, bad := wnd.bad[name]; bad {
 						add(name, "ok", "decompression disabled: "+s)
@@ -240,7 +294,7 @@ func runBytes(kind string, in []byte) core.Outcome {
 			// saw.  The tree parsed *without* decompression does, one level deep: re-run the decoders on
 			// its GUID-defined sections.  If a decoded payload itself holds a codec GUID the table may be
 			// incomplete and the comparison is skipped.
-			probe := checkFaithful(nd.tree, in, false, nd.pol)
+			probe := checkFaithfulAt(nd, in, false)
 			complete := true
 			for _, d := range probe.decodes {
 				if !d.err && hasCodecGUID(d.out) {
@@ -274,7 +328,7 @@ func runBytes(kind string, in []byte) core.Outcome {
 				out.Class += " fpt"
 			}
 		}
-		out.Key = hu.Digest(cp.tree) + xDigest(cp.tree)
+		out.Key = cp.dig + cp.xdig
 	} else {
 		out.Key = fmt.Sprintf("err:%016x", core.FNV(in))
 		out.Trivial = len(in) < 32
@@ -369,7 +423,7 @@ func shapeOf(t fuefi.Firmware) string {
 func (prop) Run(c core.Case) core.Outcome {
 	switch c.Op {
 	case "hex":
-		return runBytes(c.Kind, core.UnHex(c.Args["hex"]))
+		return runBytesX(c.Kind, core.UnHex(c.Args["hex"]), c.Args["decoded"])
 	case "fuzzfile":
 		b := fuzzMember(c.Args["name"])
 		if b == nil {
@@ -410,6 +464,7 @@ func (prop) Gen(r *rand.Rand, tier string) []core.Case {
 	cs = append(cs, nvarCases(r, thorough)...)
 	cs = append(cs, meCases(r, thorough)...)
 	cs = append(cs, fuzzCases(r, thorough)...)
+	cs = append(cs, multiCompressedCases(r, thorough)...) // last: the streams above stay what they were per seed
 	return cs
 }
 
